@@ -2203,4 +2203,4 @@ class GraphProp:
         return None
 
     def witnesses(self):
-        return {fid: {"witness": fid} for fid in ['C10/sparse-duplicates-canonicalised-in-place']}
+        return {fid: {"witness": fid} for fid in ['C10/sparse-duplicates-canonicalised-in-place', 'C11/in-flight-marker-forged-by-deepcopy']}
